@@ -1,10 +1,12 @@
 #!/bin/sh
 # thorough_all.sh : every thorough check once (long); prints one line per property
 cd "$(dirname "$0")/.." || exit 2
+bad=0
 make setup > .work_setup.log 2>&1 || { echo setup failed; tail -20 .work_setup.log; exit 2; }
 for i in 01 02 03 04 05 06 07 08 09 10 11 12 13 14 15 16 17 18 19 20; do
   s=$(date +%s)
   ./check C$i --tier thorough > .work/th_C$i.log 2>&1; rc=$?
   echo "C$i rc=$rc $(( $(date +%s)-s ))s $(tail -1 .work/th_C$i.log)"
-  [ $rc -ne 0 ] && { grep -E 'VIOLATION|KNOWN' .work/th_C$i.log; cp .work/th_C$i.log th_fail_C$i.log; }
+  [ $rc -ne 0 ] && { bad=1; grep -E 'VIOLATION|KNOWN' .work/th_C$i.log; cp .work/th_C$i.log th_fail_C$i.log; }
 done
+exit $bad
